@@ -74,3 +74,22 @@ Theorem C06_tally_is_the_value_of_its_ballots_whole_run : forall A S (ZL : zlike
   (forall c, In c (cands s) -> is_pending A c = true -> raw ZL (quota s) <= raw ZL (cvote c)).
 Proof. exact count_tally_is_standing. Qed.
 Print Assumptions C06_tally_is_the_value_of_its_ballots_whole_run.
+
+(* ---- ... for every ballot file the reader accepts ----
+   [parse_file] is the reader model (C15/C16), [to_count_profile] what Election.__init__ reads off the parsed profile
+   (Model/EndToEnd.v); the hypothesis "well-formed profile" of the whole-run theorems is discharged by the reader's
+   theorem (Proofs/EndToEndLink.v).  ./check runs the composed pipeline (text -> reader model -> count model) against
+   the implementation on the same files (correspondence group e2e). *)
+From Droop Require Import Model.Profile Model.EndToEnd Proofs.EndToEndLink.
+
+Theorem C06_tally_is_the_value_of_its_ballots_for_every_accepted_file : forall A S (ZL : zlike A S) cfg,
+  cf_method cfg = MWigm -> exact A = false -> 0 <= cf_nballots cfg -> 0 <= cf_nseats cfg ->
+  forall r text p fuel s k, greg_rule r -> parse_file text = Ok p ->
+  exec (@crashed A) fuel (count_cmd A cfg r) (init_state A cfg (to_count_profile p)) = Some (s, k) -> k <> Abort ->
+  NoDup (map (@cid A) (cands s)) /\
+  Forall (wfb A S ZL) (State.ballots s) /\
+  (forall c, In c (cands s) ->
+     raw ZL (cvote c) = stand A S ZL (State.ballots s) (cid c) \/ (cont A c = false /\ stand A S ZL (State.ballots s) (cid c) = 0)) /\
+  (forall c, In c (cands s) -> is_pending A c = true -> raw ZL (quota s) <= raw ZL (cvote c)).
+Proof. exact accepted_tally_is_standing. Qed.
+Print Assumptions C06_tally_is_the_value_of_its_ballots_for_every_accepted_file.
